@@ -10,7 +10,7 @@ TB = "Trusted: Coq 8.16.1 kernel + vm_compute (no native_compute); translators (
 CLAIMED = {
     "C01": ("Coq proof (dimensionality homomorphism by linearity of the accumulate-as-you-recurse expansion, for every registry) + T1-regenerated registry + differential correspondence + implementation-side oracles",
             "dim_of is proved a homomorphism (mul/div/pow) into canonical dimension containers for EVERY registry and container; conversion yields DimensionalityError iff dimensionalities differ and a number only if equal; compatibility is an equivalence and a congruence. The model registry is regenerated from /repo's definition files on every run (T1) and compared with pint on every spelling, sampled prefixed strings, unit pairs and random compound units; the biconditional, the four predicate APIs, symmetry/transitivity/congruence and configuration independence are checked on the real registry.",
-            TB + " Non-multiplicative units are C06's. The success direction of conversion (same dimension => a number) relies on the expansion not erroring, which is checked by correspondence, not proved, for arbitrary registries.",
+            TB + " Non-multiplicative units are C06's. The biconditional (succeeds iff same dimensionality) is proved for units with rational factors in registries with non-zero scales (decidable side conditions, checked by computation on the bundled registry); outside them (29 float-factor units) success is covered by correspondence only.",
             "DESIGN.md §4 C01"),
     "C02": ("Coq proof (root-unit expansion is the linear extension of per-definition rows; factor = ratio; identity/inverse/path independence via integer-power laws of Qc) for every registry + T1-regenerated registry + exact differential correspondence in the Fraction registry + oracles",
             "For every registry: pint's accumulate-as-you-recurse root expansion equals the denotation (homomorphism for * / **), the numeric factor of an integral symbolic factor is the product of scale powers, conversion a->b multiplies by factor(a)/factor(b), hence identity, inverse and path independence; side conditions (non-zero scales, exact units) are decided by computation on the registry regenerated from /repo. K: exact factor of every spelling, every ordered same-dimension pair of rational units (cold/warm cache, both directions first), prefix x unit (applied once), compound units, result types, Decimal (1e-24) and float (32 ulp) registries.",
@@ -18,7 +18,7 @@ CLAIMED = {
             "DESIGN.md §4 C02"),
     "C04": ("Coq proof over gmap-string-Qc container model + differential correspondence (differ inside Coq via vm_compute) + implementation-side law oracles",
             "Group laws, canonical form, ==/hash agreement and hash-cache invariant are Coq theorems over the executable model Model/UC.v for all containers (no size bound); the model is tied to pint by running every container operation of UnitsContainer/ParserHelper/Unit/Quantity on the real classes (exhaustive over 125 small containers x pairs, random beyond) and checking inside Coq that the model returns the same container, and by stateful op sequences with interleaved hash() calls.",
-            TB + " Ideal (injective) hash abstraction; float exponents only on the dyadic grid. Buckingham-pi basis clause not yet modelled (partial).",
+            TB + " Ideal (injective) hash abstraction; float exponents only on the dyadic grid. Buckingham pi: every returned monomial is proved dimensionless for all matrices; that they form a basis (independent, n - rank many) is checked per instance by K against an independent rank computation (partial).",
             "DESIGN.md §4 C04"),
     "C16": ("Coq proof over the NumPy unit-bookkeeping tables regenerated from numpy_func.py (T3) + per-class covariance lemmas under explicit homogeneity hypotheses + differential correspondence for every handled ufunc/function/method + covariance oracles",
             "The behaviour tables are regenerated from the source on every run and checked in Coq (finite vm_compute theorem, bounds in the statement) against a hand-written table of dimensional signature classes; per-class covariance is proved for an abstract kernel satisfying the class's homogeneity law; get_op_output_unit and the bare-number rule are proved correct. Every handled name is exercised on the real NumPy/pint with compatible, incompatible and offset units; result units/error classes are compared with the model inside Coq and covariance, DimensionalityError, offset refusal and input immutability are checked on the implementation.",
